@@ -1,0 +1,27 @@
+//go:build verif
+// +build verif
+
+package terminfo
+
+import "sort"
+
+// VerifNames returns every name and alias registered in the database, sorted.
+// It exists only for the verification harness (build tag verif).
+func VerifNames() []string {
+	dblock.Lock()
+	defer dblock.Unlock()
+	names := make([]string, 0, len(terminfos))
+	for n := range terminfos {
+		names = append(names, n)
+	}
+	sort.Strings(names)
+	return names
+}
+
+// VerifEntry returns the registered entry for a name without any of the
+// lookup-time synthesis, or nil.
+func VerifEntry(name string) *Terminfo {
+	dblock.Lock()
+	defer dblock.Unlock()
+	return terminfos[name]
+}
